@@ -15,8 +15,8 @@
         pthread_setspecific; is_running = true; gc = new_raw(GC, &bottom); exc = new_raw(Exception);
         x = call_with(func, args);
         del_raw(args); del_raw(gc); del_raw(exc);
-    `del_raw(gc)` is `GC_Del`: `GC_Sweep` **without a mark phase** (every non-root entry is finalised), then
-    `rem(current(Thread), "__GC")`.  The order of the last two calls is read from the source (`Cfg.gcFirst`,
+    `del_raw(gc)` is `GC_Del`: `GC_Unmark; GC_Sweep` — a sweep **without a mark phase**, from clear mark bits (commit
+    d8f0c4f): every non-root entry is finalised — then `rem(current(Thread), "__GC")`.  The order of the last two calls is read from the source (`Cfg.gcFirst`,
     CelloGen.Thr.teardownGcFirst): before commit 7de4bbc the exception record was deleted first, and a destructor
     that enters a `try` block during the teardown sweep found no `current(Exception)` — `get` raises KeyError, which
     needs `current(Exception)` again: unbounded recursion, the process dies (`Out.crash`).
@@ -34,7 +34,8 @@
     deadlocks), `trylock` never blocks and returns whether it acquired (EBUSY → `false`), `unlock` by the holder
     releases; `unlock` by anyone else is undefined behaviour of the primitive (`Out.ub`).  `with (x in m)` is
     `start_in(m)` … `stop_in(m)` = `Mutex_Lock` … `Mutex_Unlock` through the `Start` instance of `Mutex`: same events.
-    The translation of primitive error codes into exceptions (`lockTr`, `trylockTr`, `unlockTr`, `joinTr`) is as coded.
+    The translation of primitive error codes into exceptions (`lockTr`, `trylockTr`, `unlockTr`, `joinTr`) is as coded
+    (`joinTrOld`: `Thread_Join` before commit 484991f, which had no case for EDEADLK; `Cfg.joinIgnoresDeadlk` selects it).
   * a Thread object whose run has been joined may be called again (`spawn` of a `done`, joined thread): a new pthread
     with the same `struct Thread`; its thread-local table, ledger and published cell persist, the collector and the
     exception record are created afresh by the prologue.
@@ -49,12 +50,17 @@
     is read from the source: `Thread_Mark` does not test `self is current(Thread)`).  In the model the walk is an atomic
     read at operation granularity: own objects of `s` that `u`'s table refers to are marked.  In C it is an unsynchronised
     read of a table its owner rewrites (set/rem, prologue and epilogue of `Thread_Init_Run`): KF-C13-mark-foreign-tls.
+    GUARDED variant (`Cfg.foreignMark = false`: `if (self is current(Thread)) { mark(t->tls, gc, f); }`, commit 80c795e,
+    withdrawn by commit 0a0ad73): the Thread object of another thread is a leaf of the mark phase (`foreignMarks … = []`);
+    then nothing keeps alive an object that is held only through the table of a Thread object that is not running.
     When a sweep (collection, `del`, teardown) of `s` finalises the Thread object, `Thread_Del` frees `u`'s table:
     for a live `u` that is a use after free (`wrapperKilled` → `Out.ub`, not executed), afterwards `call`/`join` on
     the dead Thread object is `ub` (`wrapperGone`).  Thread objects as thread-local *values* are not modelled (`tset` of a
     serial ≥ `thrBase` is `bad`).
-  * `join(current(Thread))`: `pthread_join` reports EDEADLK, which `Thread_Join` ignores: it returns at once
-    (`Out.early`) while the thread function is running: KF-C13-join-edeadlk.
+  * `join(current(Thread))`: `pthread_join` reports EDEADLK, for which `Thread_Join` raises ResourceError (commit 484991f):
+    the caller's exception record takes the exception (`caught`), nothing else changes, the outcome is `raised`.
+    OLD variant (`Cfg.joinIgnoresDeadlk = true`): `Thread_Join` had no case for EDEADLK and returned at once
+    (`Out.early`) while the thread function was running: the repaired defect KF-C13-join-edeadlk.
   * `pubo o` / `rdo u`: the thread stores a pointer into a Ref of the joiner (`ref(out, o)`), the joiner dereferences
     it.  The teardown of `u` finalises every non-root object `u` allocated before `join` can return, so such a pointer
     dangles (`Out.dangling`): KF-C13-join-result-finalised.
@@ -157,11 +163,21 @@ def unlockTr : Errno → Option Exc
   | .eperm => some .resourceError
   | _ => none
 
-/-- `Thread_Join`: EINVAL → ValueError, ESRCH → ValueError -/
+/-- `Thread_Join`: EINVAL → ValueError, ESRCH → ValueError, EDEADLK → ResourceError (commit 484991f) -/
 def joinTr : Errno → Option Exc
   | .einval => some .valueError
   | .esrch => some .valueError
+  | .edeadlk => some .resourceError
   | _ => none
+
+/-- OLD variant: `Thread_Join` before commit 484991f — EINVAL → ValueError, ESRCH → ValueError, nothing for EDEADLK -/
+def joinTrOld : Errno → Option Exc
+  | .einval => some .valueError
+  | .esrch => some .valueError
+  | _ => none
+
+/-- does a table `[(errno, action)]` extracted from `Thread_Join` (CelloGen.Thr.joinErr) lack a case for EDEADLK? -/
+def joinIgnoresDeadlkOf (tab : List (String × String)) : Bool := (tab.lookup "EDEADLK").isNone
 
 /-- `Thread_Call` (pthread_create): EINVAL → ValueError, EAGAIN → OutOfMemoryError, EBUSY → BusyError -/
 def createTr : Errno → Option Exc
@@ -211,7 +227,7 @@ inductive Out where
   | blocked                                 -- not enabled: the caller would block
   | ub                                      -- undefined behaviour of the pthread primitive
   | acquired | released | tried (b : Bool) | joined | nothread | spawned
-  | early                                   -- join returned although the thread function is still running (EDEADLK ignored)
+  | early                                   -- OLD variant only: join returned although the thread function is still running (EDEADLK ignored)
   | dangling (o : Obj)                      -- the pointer read refers to an object that has been finalised
   | noval                                   -- nothing was published
 deriving Repr, Inhabited, DecidableEq
@@ -221,7 +237,11 @@ structure Cfg where
   consume : Bool                  -- CelloGen.Exn.catchConsumes
   maxDepth : Nat                  -- CelloGen.Exn.maxDepth
   scan : Nat × Nat → Bool         -- Type_Scan(type, class) isnt NULL: the declaration
-  foreignMark : Bool              -- Thread_Mark marks `t->tls` of *any* Thread object GC_Recurse meets (CelloGen.Thr.threadMarkUnguarded)
+  foreignMark : Bool              -- Thread_Mark marks `t->tls` of *any* Thread object GC_Recurse meets (CelloGen.Thr.threadMarkUnguarded; false = the guarded variant of commit 80c795e, withdrawn by 0a0ad73)
+  joinIgnoresDeadlk : Bool        -- OLD variant when true: Thread_Join has no case for EDEADLK (joinIgnoresDeadlkOf CelloGen.Thr.joinErr; false since commit 484991f)
+
+/-- the error translation of `Thread_Join` in the variant `cfg` describes -/
+def joinTrOf (cfg : Cfg) : Errno → Option Exc := if cfg.joinIgnoresDeadlk then joinTrOld else joinTr
 
 /-- filled (non-NULL) cache words, process-wide -/
 abbrev Cache := List (Nat × Nat)
@@ -332,7 +352,7 @@ def lrun (cfg : Cfg) (t : Tid) (c : Cache) (fm : List Obj) (op : LOp) (ts : TS) 
     | .unlock => match unlockTr e with
       | some x => ({ ts with exc := caught x ts.exc }, c, .raised x)
       | none => (ts, c, .ok)
-    | .join => match joinTr e with
+    | .join => match joinTrOf cfg e with
       | some x => ({ ts with exc := caught x ts.exc }, c, .raised x)
       | none => (ts, c, .ok)
 
@@ -453,7 +473,12 @@ def step (cfg : Cfg) (g : G) : Ev → G × Out
   | .join t u =>
     if !running g t then (g, .dead)
     else if wrapperGone g u then (g, .ub)         -- `join` on a Thread object that has been finalised
-    else if t = u then (g, .early)                -- pthread_join(self) = EDEADLK, which Thread_Join ignores: it returns
+    else if t = u then
+      -- pthread_join(self) = EDEADLK; what `Thread_Join` makes of it: ResourceError, taken by the caller's exception
+      -- record (OLD variant: no case for EDEADLK, the call returns at once)
+      match joinTrOf cfg .edeadlk with
+      | none => (g, .early)
+      | some x => ({ g with thr := upd g.thr t { g.thr t with exc := caught x (g.thr t).exc } }, .raised x)
     else match (g.thr u).phase with
       | .unborn => (g, .nothread)                  -- `if (not t->thread) return;`
       | .done => if g.joined u then (g, .ub) else ({ g with joined := upd g.joined u true }, .joined)
@@ -505,7 +530,8 @@ def run (cfg : Cfg) : List Ev → G → G × List (Ev × Out)
 
 /-! ### projections and solo runs -/
 
-/-- what the schedule does to thread `u`'s component: its own local operations, and the moment it is spawned -/
+/-- what the schedule does to thread `u`'s component: its own local operations (a `join` of itself that raised is one:
+    the thread's `pthread_join` failed with EDEADLK), and the moment it is spawned -/
 inductive Act where
   | op (o : LOp)
   | born
@@ -516,6 +542,7 @@ def proj (u : Tid) : List (Ev × Out) → List Act
   | [] => []
   | (.loc t op, _) :: s => if t = u then .op op :: proj u s else proj u s
   | (.spawn _ v, .spawned) :: s => if v = u then .born :: proj u s else proj u s
+  | (.join t v, .raised _) :: s => if t = u ∧ v = u then .op (.perr .join .edeadlk) :: proj u s else proj u s
   | _ :: s => proj u s
 
 /-- thread `u` running alone: the projected actions, threaded through a class cache of its own -/
@@ -528,7 +555,19 @@ def solo (cfg : Cfg) (u : Tid) : List Act → Cache → TS → TS × List Out
   | .born :: as, c, ts =>
     solo cfg u as c (if ts.phase = .unborn ∨ ts.phase = .done then { ts with phase := .ready } else ts)
 
-/-! ### the isolation hypothesis: what a collection may meet -/
+/-! ### the isolation hypothesis: what a collection may meet, and: no sweep frees the Thread object of a live thread -/
+
+/-- event `e` in state `g` does not finalise the Thread object `new(Thread, f)` of a live thread (`Thread_Del` would free
+    that thread's table under it: `Out.ub`, not executed) -/
+def keepsWrappersEv (cfg : Cfg) (g : G) : Ev → Bool
+  | .loc t op => !wrapperKilled g t (lstep cfg t g.cache (foreignMarks cfg g t op) op (g.thr t)).1
+  | _ => true
+
+/-- **no sweep (collection, `del`, teardown) of the schedule finalises the Thread object of a thread that is live** —
+    the program joins a thread before it drops its Thread object.  Decidable. -/
+def KeepsWrappers (cfg : Cfg) : List Ev → G → Bool
+  | [], _ => true
+  | e :: s, g => keepsWrappersEv cfg g e && KeepsWrappers cfg s (step cfg g e).1
 
 /-- a thread whose `struct Thread` a foreign collection can walk without reading anything and without racing:
     not started or finished, and its thread-local table is empty -/
@@ -538,12 +577,12 @@ def quiet (ts : TS) : Bool := (ts.phase = .unborn || ts.phase = .done) && ts.tls
     `Thread_Mark` does not walk foreign tables at all), and no sweep finalises the Thread object of a live thread -/
 def isolatedEv (cfg : Cfg) (g : G) : Ev → Bool
   | .loc t op =>
-    (!cfg.foreignMark || (heldOf g t op).all (fun u => quiet (g.thr u))) &&
-    !wrapperKilled g t (lstep cfg t g.cache (foreignMarks cfg g t op) op (g.thr t)).1
+    (!cfg.foreignMark || (heldOf g t op).all (fun u => quiet (g.thr u))) && keepsWrappersEv cfg g (.loc t op)
   | _ => true
 
 /-- **no thread's collection meets the collector-managed Thread object of a thread that is running or has thread-local
-    values** (and none frees the Thread object of a live thread), at every step of the schedule.  Decidable. -/
+    values** (and none frees the Thread object of a live thread), at every step of the schedule.  Decidable.
+    In the guarded variant (`cfg.foreignMark = false`) this is `KeepsWrappers`. -/
 def Isolated (cfg : Cfg) : List Ev → G → Bool
   | [], _ => true
   | e :: s, g => isolatedEv cfg g e && Isolated cfg s (step cfg g e).1
@@ -553,10 +592,11 @@ def races (cfg : Cfg) : List Ev → G → Nat
   | [], _ => 0
   | e :: s, g => (if raceEv cfg g e then 1 else 0) + races cfg s (step cfg g e).1
 
-/-- the outputs of thread `u`'s local operations in a trace -/
+/-- the outputs of thread `u`'s local operations in a trace (and the exception out of a `join` of itself) -/
 def localOuts (u : Tid) : List (Ev × Out) → List Out
   | [] => []
   | (.loc t _, o) :: tr => if t = u then o :: localOuts u tr else localOuts u tr
+  | (.join t v, .raised x) :: tr => if t = u ∧ v = u then .raised x :: localOuts u tr else localOuts u tr
   | _ :: tr => localOuts u tr
 
 /-! ### trace predicates (also evaluated by the driver on every schedule it runs) -/
